@@ -2,6 +2,7 @@ package main
 
 import (
 	"fmt"
+	"regexp"
 	"strings"
 
 	"golang.org/x/tools/go/ssa"
@@ -26,6 +27,9 @@ func fnListing(fn *ssa.Function) []string {
 		for _, ins := range b.Instrs {
 			switch x := ins.(type) {
 			case *ssa.Call:
+				if logOnly(x) {
+					continue // a log line in one twin only is not a divergence
+				}
 				out = append(out, "  call "+desc(x, maxDepth))
 			case *ssa.Defer:
 				out = append(out, "  defer "+calleeName(&x.Call))
@@ -128,4 +132,82 @@ func renameString(rs []Rename) string {
 		}
 	}
 	return "{" + strings.Join(p, ", ") + "}"
+}
+
+var logCalleeRe = regexp.MustCompile(`(^|[./ ])(log\.Logger|Logger)\.(Info|Debug|Error|With)$|^invoke [\w/.\-]*\.Logger\(|\.Logger$|^fmt\.(Print|Fprint)|^log\.(Print|Fatal|Panic)`)
+
+// logOnly: a call that only produces log output — a logger method, the call that fetches the logger,
+// or a fmt.Sprintf / String() whose result feeds nothing but such calls.
+func logOnly(c *ssa.Call) bool {
+	var seen = map[*ssa.Call]bool{}
+	var rec func(c *ssa.Call, d int) bool
+	rec = func(c *ssa.Call, d int) bool {
+		if d > 4 || seen[c] {
+			return false
+		}
+		seen[c] = true
+		name := calleeName(&c.Call)
+		if logCalleeRe.MatchString(name) {
+			// a logger fetch is log-only if everything done with the logger is
+			if strings.HasSuffix(name, "Logger") || strings.Contains(name, ".Logger(") || strings.HasSuffix(name, ".With") {
+				return usesAreLogOnly(c, rec, d)
+			}
+			return true
+		}
+		if name == "fmt.Sprintf" || name == "fmt.Sprint" || strings.HasSuffix(name, ".String") {
+			refs := c.Referrers()
+			if refs == nil || len(*refs) == 0 {
+				return false
+			}
+			return usesAreLogOnly(c, rec, d)
+		}
+		return false
+	}
+	return rec(c, 0)
+}
+
+func usesAreLogOnly(v ssa.Value, rec func(*ssa.Call, int) bool, d int) bool {
+	refs := v.Referrers()
+	if refs == nil {
+		return true
+	}
+	for _, r := range *refs {
+		switch u := r.(type) {
+		case *ssa.Call:
+			if !rec(u, d+1) {
+				return false
+			}
+		case *ssa.MakeInterface:
+			if !usesAreLogOnly(u, rec, d+1) {
+				return false
+			}
+		case *ssa.Store:
+			// stored into the variadic argument slice of a log call
+			ia, ok := u.Addr.(*ssa.IndexAddr)
+			if !ok {
+				return false
+			}
+			al, ok := ia.X.(*ssa.Alloc)
+			if !ok || al.Comment != "varargs" {
+				return false
+			}
+			ok2 := true
+			if rs := al.Referrers(); rs != nil {
+				for _, rr := range *rs {
+					if sl, isSl := rr.(*ssa.Slice); isSl {
+						if !usesAreLogOnly(sl, rec, d+1) {
+							ok2 = false
+						}
+					}
+				}
+			}
+			if !ok2 {
+				return false
+			}
+		case *ssa.DebugRef:
+		default:
+			return false
+		}
+	}
+	return true
 }
